@@ -161,7 +161,7 @@ package syncx
 //@   allocates
 
 //@ func (g *flightGroup) makeCall
-//@   property C07
+//@   property C07 C06
 //@   flag callbacks_noheap
 //@   requires c != nil && wg(c.wg) == 1
 //@   ghost at before delete#0: running[g][key] = false
